@@ -35,3 +35,21 @@ Definition check_fp (o : opts) (m : mol ZD) (counts : bool) (bits : Z) (req : op
   | Ok st => result_eqb fp_obs_eqb (fingerprint_query o counts bits st req mask) expected
   | Raises e => match expected with Raises e' => err_eqb e e' | _ => false end
   end.
+
+(* one evaluation of the run, then the level observation and any number of fingerprint queries
+   (counts, bits, requested level, atom mask, what the implementation returned) *)
+Definition query := (bool * Z * option Z * list Z * result fp)%type.
+
+Definition check_query (o : opts) (st : state) (q : query) : bool :=
+  let '(counts, bits, req, mask, expected) := q in
+  result_eqb fp_obs_eqb (fingerprint_query o counts bits st req mask) expected.
+
+Definition check_all (o : opts) (m : mol ZD) (k : Z) (expected : list (list (Z * Z * list Z))) (qs : list query) : bool :=
+  match runZ o m with
+  | Ok st => (st_k st =? k) && list_eqb (list_eqb obs_eqb) (obs_levels st) expected && forallb (check_query o st) qs
+  | Raises _ => false
+  end.
+
+(* what the model computes, for replay files *)
+Definition show_run (o : opts) (m : mol ZD) : result (Z * list (list (Z * Z * list Z))) :=
+  match runZ o m with Ok st => Ok (st_k st, obs_levels st) | Raises e => Raises e end.
